@@ -1,6 +1,26 @@
 """Per-property manifest entries (edited by hand, rendered by mkmanifest.py)."""
 T_PBT = "property-based testing (Hypothesis): "
 CHECKS = {
+ "C10": {
+  "technique": T_PBT + "differential testing against an einsum reference; texture-independent invariants; metamorphic frame rotation and list reordering; fault injection for malformed inputs",
+  "text": "voigt_averages on generated minerals (1..3 snapshots, 1..24 grains, all texture/volume families), assemblages [ol],[en],[ol,en],[en,ol] with minerals in either order, fractions k/1000, default or custom (orthorhombic/triclinic) stiffness: equals the einsum volume-weighted sum (1e-9 rel), symmetric, K_V and G_V equal the phase-weighted single-crystal moduli, co-rotates with Q, independent of mineral and phase-list order; one aligned grain returns C_phase; mismatched grain/snapshot counts raise ValueError.",
+  "note": "Reference uses R=A^T (rows of A are crystal axes) and an independently written Voigt index map.",
+ },
+ "C12": {
+  "technique": T_PBT + "closed-form oracles (moduli, percent anisotropy) and metamorphic frame rotation of generated orthorhombic tensors and Voigt averages",
+  "text": "elasticity_components on (a) built-in and generated positive-definite orthorhombic tensors rotated by generated Q: K,G = Voigt invariants, percent anisotropy = norm distance to isotropic part, monoclinic=triclinic=0, squared class percentages add up to anisotropy^2, all percentages frame independent (1e-7), hexagonal axis unit and = +-Q.axis0; (b) Voigt averages of generated textures: frame independence (1e-6); (c) arbitrary symmetric PD matrices: moduli/anisotropy/ranges.",
+  "note": "Cases with contraction eigenvalue gaps <1e-3*norm or a nearly tied symmetry-axis permutation are excluded and counted (axes ill-conditioned there).",
+ },
+ "C13": {
+  "technique": T_PBT + "differential vs own scatter-matrix eigen-decomposition / SVD; metamorphic rotation, permutation, symmetry relabelling",
+  "text": "symmetry_pgr, coaxial_index, bingham_average on generated textures (1..300 grains; 1e4 thorough) for axes a,b,c: ranges, sum to 1, equality with own eigen-decomposition of sum a a^T, invariance under permutation / lattice two-folds / frame rotation (axis co-rotates up to sign). finite_strain on generated F (stretch ratios up to 1e6, raw invertible, simple shears): sigma_max-1 and +-u1 from SVD, F->FQ invariant, F->QF co-rotating; simple-shear axis angle equals angle_fse_simpleshear and the SVD angle.",
+  "note": "Axes compared only when the eigenvalue gap is >1e-6 relative; coaxial index only when P+G>1e-6.",
+ },
+ "C14": {
+  "technique": T_PBT + "metamorphic relations (permutation, frame rotation, symmetry relabelling), limit cases against an independent reference M-index, quadrature of the theoretical density, differential batched-vs-single over worker counts",
+  "text": "misorientation_index for all six lattice systems on generated textures (2..60 grains; 400 thorough): range, permutation invariance (exact), frame-rotation and symmetry-relabel invariance (1e-6, or (k+1)/pairs when k pairs sit on a 1-degree bin edge), uniform textures below 3x the sampling level of an independent correct reference index (vlib/ref_mindex.py), single orientation >=0.95, theoretical density integrates to 1 (1e-3) for several bin counts; misorientation_indices equals per-snapshot values in order for worker counts 1..16 and external pools. 25 known findings (three root causes) are listed in KNOWN_FINDINGS.txt; their (oracle, lattice system) classes are excluded or replaced by a weaker known-behaviour model, everything else stays active.",
+  "note": "Schedules: pool size/provenance and per-item texture are varied; the OS scheduler is not controlled. Only the triclinic system satisfies every oracle on this tree.",
+ },
  "C04": {
   "technique": T_PBT + "metamorphic relations (frame rotation, lattice two-folds) at rate level and over paired integrated histories",
   "text": "Metamorphic search: for generated solver inputs and generated proper rotations Q, derivatives(QLQ^T, A Q^T) must equal (Adot Q^T, fdot) to 1e-10; for generated grain subsets and two-folds S, derivatives(S A) = (S Adot, fdot) to 1e-13. Paired Mineral histories in original and rotated frame (tight solver tolerances through the documented kwargs, compared at 1e-6 incl. Q^T F' Q = F) and symmetry-relabelled histories (default tolerances, 1e-9). Exploration only.",
